@@ -18,10 +18,10 @@ def points(tree, depth, nc):
     return pts
 
 
-def mkcase(rng, tree, depth, nc):
+def mkcase(rng, tree, depth, nc, fmts=("C", "U", "")):
     spec = []
     for _ in range(depth):
-        s = {"fmt": rng.choice(["C", "U", ""]), "layout": rng.choice(["", "contiguous", "interleaved"])}
+        s = {"fmt": rng.choice(fmts), "layout": rng.choice(["", "contiguous", "interleaved"])}
         for k in ("rh", "fh", "c", "p"):
             s[k] = rng.choice([-1, 0, 1, 3])
         spec.append(s)
@@ -62,8 +62,13 @@ def run(ctx):
     for _ in range(100 if ctx.quick else 2000):
         depth = rng.choice([1, 2, 3])
         cases.append(mkcase(rng, rand_tree(rng, 4, depth), depth, 4))
+    for _ in range(200 if ctx.quick else 3000):
+        cases.append(mkcase(rng, rand_tree(rng, 2, 4, pabs=0.3), 4, 2, fmts=("U", "U", "U", "C", "")))          # depth 4: empty sub-trees three ranks deep under uncompressed ranks
+    for c in list(cases):
+        if rng.random() < 0.3:
+            cases.append(dict(c, narrow=1))
     part = family.run_family(ctx, "C18", cases, "harness.exec_format", "FormatTrace.tla", "FormatTrace.cfg",
-                             op_of=lambda c, lg, st: "format", where_of=lambda c, lg, st: f"depth{c['depth']}:" + "".join(s["fmt"] or "c" for s in c["spec"]),
+                             op_of=lambda c, lg, st: "format", where_of=lambda c, lg, st: f"depth{c['depth']}:" + "".join(s["fmt"] or "c" for s in c["spec"]) + (":narrow" if c.get("narrow") else ""),
                              nontrivial=lambda c, lg: bool(c["tree"]["e"]))
     part["evaluations"] = sum(len(c["queries"]) for c in cases)
     res = {"design": design, "states": r["stats"]["distinct"], "transitions": r["stats"]["generated"], "exhaustive": False,
